@@ -624,7 +624,15 @@ func (fr *frame) doSlice(b *ssa.BasicBlock, st *state, x *ssa.Slice) {
 		if x.High != nil {
 			hi = fr.val(x.High)
 		}
-		fr.define(x, fmt.Sprintf("(mk-slice %s %s (- %s %s))", xv, lo, hi, lo))
+		nm := fr.define(x, fmt.Sprintf("(mk-slice %s %s (- %s %s))", xv, lo, hi, lo))
+		if x.Low == nil && x.High == nil && at.Len() <= 4 {
+			// a whole small array as a slice (the argument list of a variadic call): bounded quantifiers over it are
+			// expanded element by element (see trans, cQuant)
+			if c.constLen == nil {
+				c.constLen = map[string]int{}
+			}
+			c.constLen[nm] = int(at.Len())
+		}
 	case *types.Basic:
 		hi := fmt.Sprintf("(str.len %s)", xv)
 		if x.High != nil {
